@@ -25,7 +25,7 @@ O   == Trace[l - E.i]
 Pre == Trace[l - 1]
 IsChain == E.ev \in {"New", "Conv"}
 
-KnownEvent == /\ E.ev \in {"New", "Conv", "Factors"}
+KnownEvent == /\ E.ev \in {"New", "Conv", "Factors", "Cross"}
               /\ (E.ev = "Conv" => E.outcome \in {"ok", "raise"})
 
 Step_New  == (E.ev = "New") => /\ E.a.value = U!Clamp(E.v_in)
@@ -41,6 +41,12 @@ Cl_Linear          == IsChain => U!Linear(E.a, E.b, O.k)
 Cl_NonNegative     == IsChain => U!NonNegative(E.a) /\ U!NonNegative(E.b)
 Cl_Identity        == (E.ev = "Conv" /\ E.to = Pre.a.units) => (E.outcome = "ok" /\ E.a = Pre.a)
 Cl_Raises          == (E.ev = "Conv") => (U!MustRaise(Pre.a.units, E.to, E.hasM) => E.outcome = "raise")
+\* two conversions with two different components: each uses the molar mass of the component it is given
+Cl_CrossComponent  == (E.ev = "Cross") =>
+                        LET m == U!ConvertV(E.v, E.from, U!KG, E.MA)
+                            w == U!ConvertV(m, U!KG, E.to, E.MB)
+                        IN ~E.raised /\ E.mid.units = U!KG /\ E.end.units = E.to
+                           /\ EqTol(E.mid.value, m, m) /\ EqTol(E.end.value, w, w)
 Cl_Factors         == (E.ev = "Factors") => /\ U!FactorKG(E.kg_si, E.M)
                                             /\ U!FactorGPU(E.gpu_si) /\ U!FactorGPU(E.gpu_si_nocomp)
 =============================================================================
